@@ -18,6 +18,7 @@ type c02Case struct {
 	Local    bool   // side the rollback is applied on
 	SDPKind  string // empty | pending-text | unrelated-text
 	Continue bool   // complete an exchange after the rollback
+	Refused  string // "" or a class of c02RefusedClasses: calls that are REFUSED, interleaved between reaching State and the rollback
 }
 
 func (c c02Case) String() string {
@@ -26,13 +27,22 @@ func (c c02Case) String() string {
 		side = "local"
 	}
 
-	return fmt.Sprintf("prefix=%s state=%s rollback-on=%s sdp=%s continue=%v", c.Prefix, c.State, side, c.SDPKind, c.Continue)
+	s := fmt.Sprintf("prefix=%s state=%s rollback-on=%s sdp=%s continue=%v", c.Prefix, c.State, side, c.SDPKind, c.Continue)
+	if c.Refused != "" {
+		s += " refused-calls-before-rollback=" + c.Refused
+	}
+
+	return s
 }
 
 func TestVerifC02(t *testing.T) { //nolint:cyclop,gocognit
 	run := kit.Start(t, "C02", "every non-stable state × rollback side × rollback SDP {empty, pending text, unrelated valid text} × prefix "+
 		"{fresh, after 1 exchange, after 2 exchanges, after a failed call}, plus rollback from stable; thorough repeats with seeded variation and "+
-		"completes a new exchange after the rollback. Non-trivial = the case reached its target non-stable state; distinct by the case tuple + seed index")
+		"completes a new exchange after the rollback. Second block: the same states × sides × prefixes with REFUSED calls interleaved between reaching the state "+
+		"and the rollback (1..2 of one class, or 2..4 mixed): parsable local offer/answer/pranswer that is not the last created one (created/earlier/foreign text, "+
+		"7 ways of editing), local and remote descriptions of a type that is no transition from the state, remote descriptions of a legal type with invalid content "+
+		"(8 ways), unknown SDPType / unparsable / empty local text; rollback SDP kind and continuation drawn per case; the oracle is stepped on the state the "+
+		"successful calls reached. Non-trivial = the case reached its target non-stable state (and every interleaved call was refused); distinct by the case tuple + seed index")
 	defer run.Finish()
 	var cases []c02Case
 	states := []SignalingState{SignalingStateHaveLocalOffer, SignalingStateHaveRemoteOffer, SignalingStateHaveLocalPranswer, SignalingStateHaveRemotePranswer, SignalingStateStable}
@@ -42,7 +52,19 @@ func TestVerifC02(t *testing.T) { //nolint:cyclop,gocognit
 			for _, st := range states {
 				for _, local := range []bool{true, false} {
 					for _, k := range []string{"empty", "pending-text", "unrelated-text"} {
-						cases = append(cases, c02Case{pre, st, local, k, rep%2 == 1 || k == "empty"})
+						cases = append(cases, c02Case{pre, st, local, k, rep%2 == 1 || k == "empty", ""})
+					}
+				}
+			}
+		}
+	}
+	// second block (appended, so that the indices of the first block are unchanged): refused calls before the rollback
+	for rep := 0; rep < reps; rep++ {
+		for _, pre := range []string{"fresh", "one-exchange", "two-exchanges", "after-failed-call"} {
+			for _, st := range states {
+				for _, local := range []bool{true, false} {
+					for _, cl := range c02RefusedClasses() {
+						cases = append(cases, c02Case{pre, st, local, "", false, cl}) // SDPKind / Continue drawn per case
 					}
 				}
 			}
@@ -52,6 +74,10 @@ func TestVerifC02(t *testing.T) { //nolint:cyclop,gocognit
 	run.Parallel(len(cases), 12, func(i int) {
 		c := cases[i]
 		r := run.CaseRand(i)
+		if c.Refused != "" {
+			c.SDPKind = kit.Pick(r, []string{"empty", "pending-text", "unrelated-text"})
+			c.Continue = r.Chance(0.4)
+		}
 		pc := rigMustPC(rigOpts{})
 		defer rigClose(pc)
 		if _, err := pc.CreateDataChannel("c02", nil); err != nil {
@@ -93,6 +119,24 @@ func TestVerifC02(t *testing.T) { //nolint:cyclop,gocognit
 
 			return
 		}
+		// refused calls do not make a transition: the history still ends in c.State, whatever SignalingState() reads now
+		var refused []c02Refused
+		var culprit *c02Refused
+		if c.Refused != "" {
+			var accepted bool
+			if refused, culprit, accepted = c02Interleave(run, pc, r, c.Refused, c.State); accepted {
+				run.Case(fmt.Sprintf("%s #%d (a call meant to be refused was accepted)", c, i), false)
+
+				return
+			}
+			run.Seen("refused_class_x_state", c.Refused+"/"+c.State.String())
+		}
+		// the CAUSE in a signature: when a refused call left the observable negotiation state altered, a failing rollback
+		// is its consequence (signature names that call); without one the signatures are those of the plain cases
+		after := ""
+		if culprit != nil {
+			after = ":after-refused-" + culprit.label() + "-" + culprit.Changed
+		}
 		rb := SessionDescription{Type: SDPTypeRollback}
 		switch c.SDPKind {
 		case "pending-text":
@@ -127,28 +171,39 @@ func TestVerifC02(t *testing.T) { //nolint:cyclop,gocognit
 			side = "local"
 		}
 		detail := map[string]any{"case": c.String(), "err": fmt.Sprint(err), "state_after": st.String(), "slots_after": slots, "stable_snapshot": stable}
+		if c.Refused != "" {
+			detail["refused_calls_before_rollback"] = refused
+			detail["rollback_sdp"] = rb.SDP
+		}
 		switch {
 		case c.State == SignalingStateStable:
 			if err == nil {
-				run.Violation("rollback-from-stable-accepted:"+side, fmt.Sprintf("%s: rollback from stable returned nil", c), i, detail)
+				run.Violation("rollback-from-stable-accepted:"+side+after, fmt.Sprintf("%s: rollback from stable returned nil", c), i, detail)
 			}
 			run.Count("rollback_from_stable_rejected", 1)
 		case owning:
 			if err != nil {
-				run.Violation(fmt.Sprintf("rollback-rejected:%s:%s:sdp-%s", c.State, side, c.SDPKind),
+				sig := fmt.Sprintf("rollback-rejected:%s:%s:sdp-%s", c.State, side, c.SDPKind)
+				if culprit != nil {
+					sig = fmt.Sprintf("rollback-rejected:%s:%s%s", c.State, side, after)
+				}
+				run.Violation(sig,
 					fmt.Sprintf("%s: rollback on the owning side returned %v", c, err), i, detail)
 
 				return
 			}
 			run.Count("rollbacks_succeeded", 1)
+			if len(refused) > 0 {
+				run.Count("rollbacks_succeeded_after_refused_calls", 1)
+			}
 			if st != SignalingStateStable {
-				run.Violation("rollback-not-stable:"+c.State.String(), fmt.Sprintf("%s: rollback succeeded but state is %s", c, st), i, detail)
+				run.Violation("rollback-not-stable:"+c.State.String()+after, fmt.Sprintf("%s: rollback succeeded but state is %s", c, st), i, detail)
 			}
 			if slots.PendingLocal != "" || slots.PendingRemote != "" {
-				run.Violation("rollback-keeps-pending:"+c.State.String(), fmt.Sprintf("%s: pending slots after rollback: %+v", c, slots), i, detail)
+				run.Violation("rollback-keeps-pending:"+c.State.String()+after, fmt.Sprintf("%s: pending slots after rollback: %+v", c, slots), i, detail)
 			}
 			if slots.CurrentLocal != stable.CurrentLocal || slots.CurrentRemote != stable.CurrentRemote {
-				run.Violation("rollback-changes-current:"+c.State.String(),
+				run.Violation("rollback-changes-current:"+c.State.String()+after,
 					fmt.Sprintf("%s: current slots %+v differ from the last stable snapshot %+v", c, slots, stable), i, detail)
 			}
 			if c.Continue && st == SignalingStateStable {
@@ -165,13 +220,13 @@ func TestVerifC02(t *testing.T) { //nolint:cyclop,gocognit
 			if err == nil {
 				run.Count("wrong_side_rollback_accepted", 1)
 				if st != SignalingStateStable || slots.PendingLocal != "" || slots.PendingRemote != "" {
-					run.Violation("wrong-side-rollback-inconsistent:"+c.State.String(), fmt.Sprintf("%s: accepted, state %s slots %+v", c, st, slots), i, detail)
+					run.Violation("wrong-side-rollback-inconsistent:"+c.State.String()+after, fmt.Sprintf("%s: accepted, state %s slots %+v", c, st, slots), i, detail)
 				}
 			} else {
 				run.Count("wrong_side_rollback_rejected", 1)
 			}
 		}
-		if i%37 == 0 {
+		if i%37 == 0 || (len(refused) > 0 && i%131 == 0) {
 			run.Sample(detail)
 		}
 	})
